@@ -107,16 +107,27 @@ def judge (t : Trace) : Option String :=
       match t.endT with
       | some _ => none
       | none =>
-        -- 7. auto-termination: every delivery happens while some live non-daemon event is pending
-        let bad := ds.find? fun d =>
-          let pendingPrimary := t.created.any fun c =>
-            !c.daemon && c.pos < d.pos && live c d.pos && !crashedSome c.target &&
+        -- 7. auto-termination: every delivery happens while some live non-daemon event is pending.
+        -- Two grades: nothing non-daemon is left in the heap at all, not even a cancelled event
+        -- waiting for its lazy deletion (`…/ran-with-no-primary-in-heap`), or only cancelled ones
+        -- are left (`…/ran-with-no-primary-pending`, the code's lazy-deletion behaviour).
+        let undelivered (c : Created) (d : Deliv) := c.pos < d.pos &&
               !(tagged.any fun d' => d'.tag == c.tag && d'.pos < d.pos)
-          let laterFutureResume := ds.any fun d' => d'.tag == 0 && d'.pos ≥ d.pos && d'.clock == d.clock
-          !pendingPrimary && !laterFutureResume
-        match bad with
-        | some _ => some "engine/autoterm/ran-with-no-primary-pending"
-        | none => none
+        let notYet (c : Created) (d : Deliv) := undelivered c d && !crashedSome c.target
+        let laterFutureResume (d : Deliv) := ds.any fun d' => d'.tag == 0 && d'.pos ≥ d.pos && d'.clock == d.clock
+        let badHeap := ds.find? fun d =>
+          let inHeap := t.created.any fun c =>
+            !c.daemon && undelivered c d && c.clock ≤ c.time && (live c d.pos || d.clock ≤ c.time)
+          !inHeap && !laterFutureResume d
+        match badHeap with
+        | some _ => some "engine/autoterm/ran-with-no-primary-in-heap"
+        | none =>
+          let bad := ds.find? fun d =>
+            let pendingPrimary := t.created.any fun c => !c.daemon && notYet c d && live c d.pos
+            !pendingPrimary && !laterFutureResume d
+          match bad with
+          | some _ => some "engine/autoterm/ran-with-no-primary-pending"
+          | none => none
 
 def judgeBlock (body : List String) : List String :=
   match judge (parse body) with
